@@ -51,7 +51,7 @@ Upd(m, e) ==
       [] e.ev = "Disconnected" -> [m EXCEPT !.disc = Append(@, e.t)]
       [] e.ev = "Reconnected" -> [m EXCEPT !.recon = Append(@, e.t)]
       [] e.ev = "Release" -> [m EXCEPT !.releases = Append(@, e.t)]
-      [] e.ev = "Stall" -> [m EXCEPT !.stalls = Append(@, e.t)]
+      [] e.ev = "Stall" -> [m EXCEPT !.stalls = Append(@, [t |-> e.t, us |-> e.ms * 1000])]
       [] e.ev = "ApiCall" /\ e.op = "CloseConn" -> [m EXCEPT !.closeT = IF @ < 0 THEN e.t ELSE @]
       [] e.ev = "ApiRet" /\ e.op = "SendMeta" -> [m EXCEPT !.appRet = @ + 1, !.appOk = @ + (IF e.err = "" THEN 1 ELSE 0)]
       [] OTHER -> m
@@ -105,8 +105,12 @@ NoRecoveryC(m, c) == RecOwed(m, c) /\ ~Recovered(m, c) /\ ObsEnd(m) > RecBound(m
 TimelyUntil(m, c, td) ==
     \A k \in 1..Len(PingsOf(m, c)) :
         LET p == PingsOf(m, c)[k] IN p.t < td => (AnsweredWithin(m, p, (3 * TT(m)) \div 4) \/ td - p.t <= (3 * TT(m)) \div 4)
-\* a scheduling stall recorded between 3T before and 50 ms after the close excuses it (the Stall event is logged when the stall ends)
-StallNear(m, td) == \E x \in RangeS(m.stalls) : x >= td - 3 * TT(m) /\ x <= td + 50000
+\* scheduling stalls recorded between 3T before and 50 ms after the close excuse it (the Stall event is logged when the stall
+\* ends) when they add up to a third of the margin T/4 that a timely pong (<= 3T/4) leaves: the harness's detector sees the
+\* delay of its own goroutine only, the library's goroutines may have been held up longer
+StallSum(m, td) == LET W == { k \in 1..Len(m.stalls) : m.stalls[k].t >= td - 3 * TT(m) /\ m.stalls[k].t <= td + 50000 }
+                   IN FoldSet(LAMBDA k, acc : acc + m.stalls[k].us, 0, W)
+StallNear(m, td) == 3 * StallSum(m, td) >= TT(m) \div 4
 SpuriousPremise(m, c) == Det(m, c) # {} /\ ~StallNear(m, MinS(Det(m, c))) /\ (Other(m, c) = {} \/ MinS(Other(m, c)) > MinS(Det(m, c)))
 SpuriousCloseC(m, c) == SpuriousPremise(m, c) /\ TimelyUntil(m, c, MinS(Det(m, c)))
 DeadIncs(m) == { x.c : x \in RangeS(m.clis) } \cup { x.c : x \in RangeS(m.downs) }
